@@ -10,6 +10,9 @@ use crate::world::*;
 pub enum RuleMode {
     None,
     Permissive,
+    /// `ALLOW *` preceded by MATCH rules that match nothing (pattern `zz-none*`) but carry every shape of
+    /// the optional `IN <prefix>` clauses: absent, empty, non-empty
+    PermissiveWithMatch,
 }
 
 #[derive(Clone, Copy, Debug)]
@@ -111,6 +114,17 @@ fn assemble(
         let rules = match cfg.rules {
             RuleMode::None => vec![],
             RuleMode::Permissive => vec![RuleSpec::Allow("*".into())],
+            RuleMode::PermissiveWithMatch => {
+                let pre = |k: usize| match k % 3 {
+                    0 => None,
+                    1 => Some(String::new()),
+                    _ => Some("d".to_string()),
+                };
+                vec![
+                    RuleSpec::Match { pattern: "zz-none*".into(), in_src: pre(i), products: i % 2 == 0, in_dst: pre(i / 3 + 1), from: name.clone() },
+                    RuleSpec::Allow("*".into()),
+                ]
+            }
         };
         let auth: Vec<KeySpec> = p.authorized.iter().map(|a| funcs[*a].clone()).collect();
         let sub = subs.get(i).cloned().flatten();
@@ -123,7 +137,7 @@ fn assemble(
                 for k in auth.iter().take(copies) {
                     let mut copy = inner.clone();
                     copy.sigs = vec![SigEntry::good(k)];
-                    links.push(LinkFile { step: name.clone(), filed_under: k.clone(), body: Body::Sub { world: Box::new(copy), placement: Placement::Proper } });
+                    links.push(LinkFile { step: name.clone(), filed_under: k.clone(), name_field: None, body: Body::Sub { world: Box::new(copy), placement: Placement::Proper } });
                 }
             }
             None => {
@@ -137,7 +151,7 @@ fn assemble(
                         byproducts: ByprodSpec { return_value: Some(p.ret), stdout: Some(String::new()), stderr: Some(String::new()), other: Default::default() },
                         command: p.command.clone(),
                     };
-                    links.push(LinkFile { step: name.clone(), filed_under: k.clone(), body: Body::Link { link, sigs: vec![SigEntry::good(k)], tamper: None } });
+                    links.push(LinkFile { step: name.clone(), filed_under: k.clone(), name_field: None, body: Body::Link { link, sigs: vec![SigEntry::good(k)], tamper: None } });
                 }
             }
         }
